@@ -3,6 +3,7 @@ package main
 import (
 	"encoding/json"
 	"fmt"
+	"reflect"
 	"strings"
 
 	"github.com/shiwano/errdef"
@@ -186,46 +187,22 @@ func runC14(d c14Desc) Case {
 		pred, predCoq = func(errdef.FieldValue) bool { return false }, "PFalse"
 	case "intgt":
 		pred = func(v errdef.FieldValue) bool {
-			switch x := v.Value().(type) {
-			case int:
-				return int64(x) > lk.PInt
-			case int8:
-				return int64(x) > lk.PInt
-			case int16:
-				return int64(x) > lk.PInt
-			case int32:
-				return int64(x) > lk.PInt
-			case int64:
-				return x > lk.PInt
-			case uint:
-				return int64(x) > lk.PInt
-			case uint8:
-				return int64(x) > lk.PInt
-			case uint16:
-				return int64(x) > lk.PInt
-			case uint32:
-				return int64(x) > lk.PInt
-			case uint64:
-				return int64(x) > lk.PInt
-			case MyInt:
-				return int64(x) > lk.PInt
-			case bool:
-				return b2i(x) > lk.PInt
-			case interface{ Nanoseconds() int64 }:
-				return x.Nanoseconds() > lk.PInt
+			rv := reflect.ValueOf(v.Value())
+			switch rv.Kind() { // every value the model represents as RInt (integer kinds and bool)
+			case reflect.Int, reflect.Int8, reflect.Int16, reflect.Int32, reflect.Int64:
+				return rv.Int() > lk.PInt
+			case reflect.Uint, reflect.Uint8, reflect.Uint16, reflect.Uint32, reflect.Uint64:
+				return int64(rv.Uint()) > lk.PInt
+			case reflect.Bool:
+				return b2i(rv.Bool()) > lk.PInt
 			}
 			return false
 		}
 		predCoq = "(PIntGt " + cZ(lk.PInt) + ")"
 	default:
 		pred = func(v errdef.FieldValue) bool {
-			switch x := v.Value().(type) {
-			case string:
-				return x == lk.PStr
-			case MyStr:
-				return string(x) == lk.PStr
-			}
-			return false
+			rv := reflect.ValueOf(v.Value())
+			return rv.Kind() == reflect.String && rv.String() == lk.PStr
 		}
 		predCoq = "(PStrEq " + cStr(lk.PStr) + ")"
 	}
